@@ -1,9 +1,9 @@
 use std::borrow::Cow;
-use std::collections::HashSet;
+use std::collections::{HashMap, HashSet};
 use std::sync::Arc;
 
 use crossbeam_utils::atomic::AtomicCell;
-use datacake_crdt::{HLCTimestamp, OrSWotSet, StateChanges};
+use datacake_crdt::{HLCTimestamp, Key, OrSWotSet, StateChanges};
 use datacake_node::Clock;
 use puppet::{puppet_actor, ActorMailbox};
 
@@ -90,18 +90,21 @@ where
         let mut valid_entries = Vec::with_capacity(msg.docs.len());
 
         // Only select docs to be inserted if they're able to be applied.
-        let docs = msg
+        let mut docs = msg
             .docs
             .into_iter()
             .filter(|doc| self.state.will_apply(doc.id(), doc.last_updated()))
-            .map(|doc| {
-                valid_entries.push((doc.id(), doc.last_updated()));
-                doc
-            });
+            .collect::<Vec<_>>();
+
+        // A request can contain several versions of the same document (i.e. a batch of
+        // changes made within the same interval), only the newest version may reach the
+        // store, otherwise the store and the set end up with different versions.
+        retain_newest(&mut docs, |doc| (doc.id(), doc.last_updated()));
+        valid_entries.extend(docs.iter().map(|doc| (doc.id(), doc.last_updated())));
 
         let res = self
             .storage
-            .multi_put_with_ctx(&self.name, docs, msg.ctx.as_ref())
+            .multi_put_with_ctx(&self.name, docs.into_iter(), msg.ctx.as_ref())
             .await;
 
         // Ensure the insertion order into the set is correct.
@@ -158,16 +161,20 @@ where
         let mut valid_entries = Vec::with_capacity(msg.docs.len());
 
         // Only select docs to be inserted if they're able to be applied.
-        let docs = msg
+        let mut docs = msg
             .docs
             .into_iter()
             .filter(|doc| self.state.will_apply(doc.id, doc.last_updated))
-            .map(|doc| {
-                valid_entries.push((doc.id, doc.last_updated));
-                doc
-            });
+            .collect::<Vec<_>>();
 
-        let res = self.storage.mark_many_as_tombstone(&self.name, docs).await;
+        // Only the newest delete of each document may reach the store, see `on_multi_set`.
+        retain_newest(&mut docs, |doc| (doc.id, doc.last_updated));
+        valid_entries.extend(docs.iter().map(|doc| (doc.id, doc.last_updated)));
+
+        let res = self
+            .storage
+            .mark_many_as_tombstone(&self.name, docs.into_iter())
+            .await;
 
         // Ensure the insertion order into the set is correct.
         valid_entries.sort_by_key(|entry| entry.1);
@@ -245,6 +252,25 @@ where
     #[puppet]
     async fn on_last_updated(&self, _msg: LastUpdated) -> HLCTimestamp {
         self.change_timestamp.load()
+    }
+}
+
+/// Removes all but the newest version of each document from the given set of documents.
+fn retain_newest<T>(docs: &mut Vec<T>, key: impl Fn(&T) -> (Key, HLCTimestamp)) {
+    let mut newest = HashMap::with_capacity(docs.len());
+    for doc in docs.iter() {
+        let (id, ts) = key(doc);
+        let entry = newest.entry(id).or_insert(ts);
+        if *entry < ts {
+            (*entry) = ts;
+        }
+    }
+
+    if newest.len() != docs.len() {
+        docs.retain(|doc| {
+            let (id, ts) = key(doc);
+            newest.get(&id) == Some(&ts)
+        });
     }
 }
 
